@@ -66,7 +66,10 @@ func spareIntact(s sortints.SortedInts) bool {
 	return true
 }
 
+var extremes = []int{-1 << 63, -1<<63 + 1, -1 << 62, -1<<31 - 1, -1, 0, 1, 1 << 31, 1 << 62, 1<<63 - 2, 1<<63 - 1}
+
 type engine struct {
+	extreme bool // values come from the list of extreme ints
 	r       *driver.Run
 	pool    []*val
 	lo      int
@@ -97,7 +100,12 @@ func (e *engine) rewrap(a *val) {
 	a.s = withCap(a.m, e.extra())
 }
 
-func (e *engine) drawInt() int { return e.lo + e.r.T.Draw(e.hi-e.lo+1) }
+func (e *engine) drawInt() int {
+	if e.extreme {
+		return extremes[e.r.T.Draw(len(extremes))]
+	}
+	return e.lo + e.r.T.Draw(e.hi-e.lo+1)
+}
 
 func (e *engine) drawList(max int) []int {
 	k := e.r.T.Draw(max + 1)
@@ -222,7 +230,10 @@ func setOp(op string, a, b []int) []int {
 func runSets(r *driver.Run) {
 	t := r.T
 	e := &engine{r: r}
-	switch t.Draw(4) {
+	switch t.Draw(5) {
+	case 4:
+		e.extreme = true
+		r.Probe("extreme-int-values")
 	case 0:
 		e.lo, e.hi = 0, 7
 	case 1:
@@ -443,7 +454,7 @@ func runSort(r *driver.Run) {
 	default:
 		n = []int{0, 1, 2, 11, 12, 13, 40, 41, 50, 51, 4096}[t.Draw(11)]
 	}
-	shape := t.Draw(9)
+	shape := t.Draw(10)
 	xs := make([]int, n)
 	vr := []int{2, 5, 1000, 1 << 40}[t.Draw(4)]
 	for i := range xs {
@@ -473,6 +484,17 @@ func runSort(r *driver.Run) {
 		default:
 			xs[i] = 7
 		}
+	}
+	if shape == 9 {
+		// values at both ends of the int range (differences overflow)
+		for i := range xs {
+			if t.Chance(1, 3) {
+				xs[i] = extremes[t.Draw(len(extremes))]
+			} else {
+				xs[i] = t.Draw(100) - 50
+			}
+		}
+		r.Probe("sort-extreme-int-values")
 	}
 	if shape == 8 {
 		// quicksort killer: forces the depth limit, i.e. the heapsort fallback
@@ -519,7 +541,7 @@ func main() {
 		Rule: "a case is one seeded history of up to 50 operations over a pool of up to 6 long-lived SortedInts values with spare capacity 0/1/2/7/40 (whole sortints API, aliased operands allowed), or (1 run in 8) one ints.Sort call on a slice shaped to reach the insertion-sort, quicksort and heapsort branches (length <= 5000). " +
 			"After every operation the result must be strictly increasing and equal the map model, arguments bit-identical, every other pool member and its spare capacity untouched. Non-trivial = at least 3 operations including a mutation (or a sort of more than 12 elements); distinct = distinct fingerprints of the observed results.",
 		Assumptions: []string{
-			"values are within +-1e6 and set sizes are small; Range uses ends within +-60 and steps within +-5",
+			"values are within +-1e6 (one run in five: taken from a list of extreme ints incl. MinInt/MaxInt) and set sizes are small; Range uses ends within +-60 and steps within +-5",
 			"Complement is called with n >= 0",
 			"no fault or schedule exists in this code: the simulator contributes seeded histories over long-lived values, the lock-step model, minimisation and replay",
 		},
